@@ -63,9 +63,13 @@ def gen_history(rnd, length):
         elif r < 0.65:
             evs.append({"ev": "unused"})
         elif r < 0.68:
-            evs.append({"ev": "evict", "f": rnd.choice(FILES)})
+            # (these histories live in memory only: an evicted / closed file cannot be read back from disk.  The module that
+            # others IMPORT is therefore never evicted or closed here -- what eviction of an imported module does is judged by
+            # History.tla's families, whose files are on disk; the trace specification does not model the import memo's
+            # being filled as a side effect of `unused` / `refs`, which only shows once the imported module has vanished)
+            evs.append({"ev": "evict", "f": rnd.choice([f for f in FILES if f != "h"])})
         elif r < 0.72:
-            evs.append({"ev": "close", "f": rnd.choice(FILES)})
+            evs.append({"ev": "close", "f": rnd.choice([f for f in FILES if f != "h"])})
         elif r < 0.82:
             evs.append({"ev": "avail", "f": rnd.choice(["t", "t2", "c"])})
         elif r < 0.90:
